@@ -69,14 +69,18 @@ func (c *Ctx) consumeShape(ru *report.Rule) *consumeShape {
 	if !ru.Anchor(s.fIdx >= 0, "callback parameter of Consume") || !ru.Anchor(s.batch != nil, "the batch closure handed to stream.Consumer.Consume") || !ru.Anchor(s.mapCall != nil, "the gommap.Map call that maps the consumer state") {
 		return nil
 	}
-	for _, cl := range core.CallsIn(s.batch) {
+	for _, cl := range c.callsDeep(s.batch, 3) {
 		if cl.Static == nil && !cl.Invoke && cl.Builtin() == "" && depReaches(cl.Common.Value, func(v ssa.Value) bool { return v == ssa.Value(impl.Params[s.fIdx]) }) {
 			s.handover = cl
 		}
 		if cl.Obj != nil && cl.Obj.Name() == "PutUint64" && len(cl.Args()) == 2 && depReaches(cl.Args()[0], func(v ssa.Value) bool { return v == s.mapCall.Value() }) {
 			s.persist = cl
 		}
-		if c.isTruncating(cl, tb) {
+		// truncation events: TruncateBefore itself, or the helper that wraps it directly (the helper's own call is not a second event)
+		direct := func(g *ssa.Function) bool {
+			return g != nil && c.callsTransitively(g, 0, func(x *core.Call) bool { return x.Is(tb) })
+		}
+		if (cl.Is(tb) && !(cl.Instr.Parent() != s.batch && direct(cl.Instr.Parent()))) || direct(cl.Static) {
 			s.truncs = append(s.truncs, cl)
 		}
 	}
@@ -169,22 +173,38 @@ func checkC15(c *Ctx) {
 	ru1 := c.R.Rule("C15-R1", "in the consume batch closure: callback, then (only if it returned nil) persist the offset, then truncate — all in the same loop iteration; a callback error is returned before anything is persisted", "E2 dominance + E1 nil-branch guard + E4", 3)
 	s := c.consumeShape(ru1)
 	if s != nil {
-		ok, detail, n := c.guardedByNilResult(s.batch, s.handover, s.persist.Instr)
+		local := s.handover.Instr.Parent() == s.batch && s.persist.Instr.Parent() == s.batch
+		var ok bool
+		var detail string
+		var n int
+		if local {
+			ok, detail, n = c.guardedByNilResult(s.batch, s.handover, s.persist.Instr)
+		} else {
+			// hand-over and persist live in helpers of the batch closure: judged on its paths with the helpers inlined
+			ok, detail, n = c.guardedByNilResultDeep(s.batch, s.handover, s.persist.Instr)
+		}
 		ru1.Evals(n)
 		loops := core.Loops(s.batch)
-		lh, lp := core.InnermostLoop(loops, s.handover.Instr.Block()), core.InnermostLoop(loops, s.persist.Instr.Block())
+		loopOf := func(in ssa.Instruction) *core.Loop {
+			var l *core.Loop
+			for _, at := range c.liftTo(s.batch, in) {
+				l = core.InnermostLoop(loops, at.Block())
+			}
+			return l
+		}
+		lh, lp := loopOf(s.handover.Instr), loopOf(s.persist.Instr)
 		if ok && (lh == nil || lh != lp) {
 			ok, detail = false, "the offset is not persisted in the same loop iteration as the hand-over: a crash inside a batch replays the whole batch"
 		}
 		ru1.Check(ok, "persist after successful hand-over in "+c.fname(s.batch), c.whereI(s.persist.Instr), detail, detail)
 		tbad := ""
 		for _, t := range s.truncs {
-			if !core.Dominates(s.persist.Instr, t.Instr) {
+			if !c.runsBefore(s.batch, s.persist.Instr, t.Instr) {
 				tbad = "a truncation at " + c.whereI(t.Instr) + " is not dominated by the persist of the offset"
 			}
 		}
 		ru1.Check(tbad == "", "truncate after persist in "+c.fname(s.batch), c.where(s.batch, s.batch), fmt.Sprintf("%d truncating call(s), all after the persist", len(s.truncs)), tbad)
-		fs, n2, err := c.errDiscipline(s.batch, func(cl *core.Call) bool { return cl.Instr == s.handover.Instr })
+		fs, n2, _, err := c.errDisciplineDeep(s.batch, func(cl *core.Call) bool { return cl.Instr == s.handover.Instr }, 2)
 		ru1.Evals(n2)
 		key := "callback error ends the batch in " + c.fname(s.batch)
 		if err != nil {
@@ -198,12 +218,27 @@ func checkC15(c *Ctx) {
 		// R2
 		ru2 := c.R.Rule("C15-R2", "the value persisted, and the offset given to the truncation, are the very offset that was just handed to the callback", "E3 provenance (dominating store into the captured cell)", 2)
 		ho := s.handover.Common.Args[0]
-		ru2.Check(sameValue(s.persist.Args()[1], ho), "persisted value in "+c.fname(s.batch), c.whereI(s.persist.Instr), "same value as the callback's offset argument", "the persisted offset is not the offset handed to the callback: "+short(core.Term(s.persist.Args()[1]), 80)+" vs "+short(core.Term(ho), 80))
+		sameOffset := func(v ssa.Value, at ssa.Instruction) bool {
+			if sameValue(v, ho) {
+				return true
+			}
+			// across helpers (the value travels through parameters or a state struct): copy chain only, no arithmetic
+			heapField := false
+			if ld, ok := conversionsOnly(v).(*ssa.UnOp); ok && ld.Op == token.MUL {
+				if fa, ok := ld.X.(*ssa.FieldAddr); ok {
+					if _, isLocal := core.Strip(fa.X).(*ssa.Alloc); !isLocal {
+						heapField = true // a state object shared with the helpers that update it
+					}
+				}
+			}
+			return (at.Parent() != s.handover.Instr.Parent() || heapField) && c.copyReaches(v, ho)
+		}
+		ru2.Check(sameOffset(s.persist.Args()[1], s.persist.Instr), "persisted value in "+c.fname(s.batch), c.whereI(s.persist.Instr), "same value as the callback's offset argument", "the persisted offset is not the offset handed to the callback: "+short(core.Term(s.persist.Args()[1]), 80)+" vs "+short(core.Term(ho), 80))
 		for i, t := range s.truncs {
 			args := t.Args()
 			okT := false
 			for _, a := range args {
-				if sameValue(a, ho) {
+				if sameOffset(a, t.Instr) {
 					okT = true
 				}
 			}
@@ -288,7 +323,7 @@ func checkC15(c *Ctx) {
 		rt := core.Term(rec)
 		okO := false
 		var idxVal ssa.Value
-		if bo, ok := conversionsOnly(ho).(*ssa.BinOp); ok && bo.Op == token.ADD {
+		if bo, ok := conversionsOnly(deepStrip(ho)).(*ssa.BinOp); ok && bo.Op == token.ADD {
 			for _, pair := range [][2]ssa.Value{{bo.X, bo.Y}, {bo.Y, bo.X}} {
 				if stringsContains(core.Term(pair[0]), ".FirstOffset") && !stringsContains(core.Term(pair[1]), "FirstOffset") {
 					idxVal = conversionsOnly(pair[1])
